@@ -22,6 +22,10 @@
    InitLogger ChildLogger WithFields SetLevel   step (OInit OChild OWith OSetLevel OEnableDebug);
      EnableDebug; context.WithValue/WithCancel   ODerive = any context derived without a holder
    Log                                          log_of
+   zap.ReplaceGlobals between operations        OSetGlobal g  (outside the property's operation
+                                                list; holder-less contexts follow the new global,
+                                                existing holders keep what they were built from;
+                                                the "returned" context is a fresh context.TODO())
 
    Every operation returns a context; the model appends it to [ctxs] (a growing tree of
    contexts, context 0 = context.TODO()).  Fields are identified by a number (the harness
@@ -86,7 +90,8 @@ Section Ops.
   | OWith (c : nat) (fs : list field)
   | OSetLevel (c : nat) (l : level)
   | OEnableDebug (c : nat)
-  | ODerive (c : nat).
+  | ODerive (c : nat)
+  | OSetGlobal (g : core).
 
   Definition holder_of (st : state) (c : nat) : option nat := nth c (ctxs st) None.
 
@@ -128,6 +133,7 @@ Section Ops.
     | OSetLevel c l => update st c (fun lg => custom_level lg l)
     | OEnableDebug c => update st c (fun lg => custom_level lg (-1))
     | ODerive c => {| glob := glob st; store := store st; ctxs := ctxs st ++ [holder_of st c] |}
+    | OSetGlobal g => {| glob := g; store := store st; ctxs := ctxs st ++ [None] |}
     end.
 
   Definition init (g : core) : state := {| glob := g; store := []; ctxs := [None] |}.
@@ -139,6 +145,13 @@ End Ops.
 (* ---- specification: what the property says a context logger is ---- *)
 (* per holder: the accumulated field list and the level; ChildLogger / InitLogger fork *)
 Definition slog := (list field * level)%type.
+
+(* what a core amounts to: its accumulated context and its effective (outermost) level *)
+Fixpoint cfields (c : core) : list field :=
+  match c with Base _ fs => fs | Wrap c' _ => cfields c' end.
+Definition clevel (c : core) : level := match c with Base l _ => l | Wrap _ l => l end.
+Definition abs (c : core) : slog := (cfields c, clevel c).
+
 
 Record sstate := { sglob : slog; sstore : list slog; sctxs : list (option nat) }.
 
@@ -171,6 +184,7 @@ Definition sstep (st : sstate) (o : op) : sstate :=
   | OSetLevel c l => supdate st c (set_level l)
   | OEnableDebug c => supdate st c (set_level (-1))
   | ODerive c => {| sglob := sglob st; sstore := sstore st; sctxs := sctxs st ++ [sholder_of st c] |}
+  | OSetGlobal g => {| sglob := abs g; sstore := sstore st; sctxs := sctxs st ++ [None] |}
   end.
 
 Definition sinit (g : slog) : sstate := {| sglob := g; sstore := []; sctxs := [None] |}.
@@ -179,12 +193,6 @@ Definition srun (g : slog) (ops : list op) : sstate := fold_left sstep ops (sini
 (* an entry is emitted exactly at or above the logger's level, carrying exactly its fields *)
 Definition semit (x : slog) (l : level) : list (list field) :=
   if snd x <=? l then [fst x] else [].
-
-(* what a core amounts to: its accumulated context and its effective (outermost) level *)
-Fixpoint cfields (c : core) : list field :=
-  match c with Base _ fs => fs | Wrap c' _ => cfields c' end.
-Definition clevel (c : core) : level := match c with Base l _ => l | Wrap _ l => l end.
-Definition abs (c : core) : slog := (cfields c, clevel c).
 
 (* ---- observation of a whole run (used by the judge and the harness) ---- *)
 Definition probe_levels : list level := [-1; 0; 1; 2].   (* Debug Info Warn Error *)
